@@ -313,7 +313,7 @@ theorem repDec_shrinks {c : Codec α} (hc : c.Shrinks) :
         have := hc _ _ _ hx
         omega
 
-theorem listN_sound (k : Nat) {c : Codec α} (hc : c.Sound) : (listN k c).Sound := by
+theorem listN_sound (k : Nat) {c : Codec α} {esz : Nat} (hc : c.Sound) : (listN k c esz).Sound := by
   intro l rest h
   have h1 : l.length < 256 ^ k ∧ l.all c.wf = true := by simpa [listN] using h
   simp only [listN, List.append_assoc]
@@ -321,7 +321,7 @@ theorem listN_sound (k : Nat) {c : Codec α} (hc : c.Sound) : (listN k c).Sound 
     drop_append_len _ _ _ (beN_length k _), unbe_beN_of_lt h1.1]
   exact repDec_sound hc l rest h1.2
 
-theorem listN_decwf (k : Nat) {c : Codec α} (hc : c.DecWF) : (listN k c).DecWF := by
+theorem listN_decwf (k : Nat) {c : Codec α} {esz : Nat} (hc : c.DecWF) : (listN k c esz).DecWF := by
   intro bs l rest h
   simp only [listN] at h
   split at h
@@ -334,7 +334,7 @@ theorem listN_decwf (k : Nat) {c : Codec α} (hc : c.DecWF) : (listN k c).DecWF 
     exact ⟨by omega, this.1⟩
   · cases h
 
-theorem listN_shrinks (k : Nat) {c : Codec α} (hc : c.Shrinks) : (listN k c).Shrinks := by
+theorem listN_shrinks (k : Nat) {c : Codec α} {esz : Nat} (hc : c.Shrinks) : (listN k c esz).Shrinks := by
   intro bs l rest h
   simp only [listN] at h
   split at h
@@ -344,14 +344,14 @@ theorem listN_shrinks (k : Nat) {c : Codec α} (hc : c.Shrinks) : (listN k c).Sh
 
 /-! ### refine / preEnc -/
 
-theorem refine_sound {c : Codec α} (p : α → Bool) (hc : c.Sound) : (refine c p).Sound := by
+theorem refine_sound {c : Codec α} {nested : α → Nat} (p : α → Bool) (hc : c.Sound) : (refine c p nested).Sound := by
   intro a rest h
   have h1 : c.wf a = true ∧ p a = true := by simpa [refine] using h
   simp only [refine]
   rw [hc a rest h1.1]
   simp [h1.2]
 
-theorem refine_decwf {c : Codec α} (p : α → Bool) (hc : c.DecWF) : (refine c p).DecWF := by
+theorem refine_decwf {c : Codec α} {nested : α → Nat} (p : α → Bool) (hc : c.DecWF) : (refine c p nested).DecWF := by
   intro bs a rest h
   simp only [refine] at h
   split at h
@@ -364,7 +364,7 @@ theorem refine_decwf {c : Codec α} (p : α → Bool) (hc : c.DecWF) : (refine c
       simp [refine, hc _ _ _ hx, hp]
     · cases h
 
-theorem refine_shrinks {c : Codec α} (p : α → Bool) (hc : c.Shrinks) : (refine c p).Shrinks := by
+theorem refine_shrinks {c : Codec α} {nested : α → Nat} (p : α → Bool) (hc : c.Shrinks) : (refine c p nested).Shrinks := by
   intro bs a rest h
   simp only [refine] at h
   split at h
@@ -502,7 +502,7 @@ theorem peek1_minLen : peek1.MinLen 1 := by
   cases a with
   | nil => simp [peek1] at h
   | cons b t => simp [peek1]
-theorem listN_minLen (k : Nat) (c : Codec α) : (listN k c).MinLen k := by intro a _; simp [listN]
+theorem listN_minLen (k : Nat) (c : Codec α) {esz : Nat} : (listN k c esz).MinLen k := by intro a _; simp [listN]
 
 theorem seq_minLen {a : Codec α} {b : Codec β} {n m : Nat} (ha : a.MinLen n) (hb : b.MinLen m) :
     (seq a b).MinLen (n + m) := by
@@ -520,8 +520,7 @@ theorem dep_minLen {a : Codec τ} {f : τ → Codec β} {n m : Nat} (ha : a.MinL
   have := hf _ _ h1.2
   simp [dep]; omega
 
-theorem refine_minLen {c : Codec α} {n : Nat} (p : α → Bool) (hc : c.MinLen n) :
-    (refine c p).MinLen n := by
+theorem refine_minLen {c : Codec α} {n : Nat} {nested : α → Nat} (p : α → Bool) (hc : c.MinLen n) : (refine c p nested).MinLen n := by
   intro a h
   have h1 : c.wf a = true ∧ p a = true := by simpa [refine] using h
   exact hc a h1.1
@@ -668,7 +667,7 @@ theorem repDec_lenExact {c : Codec α} (hc : c.LenExact) :
           simp [encAll]
         omega
 
-theorem listN_lenExact (k : Nat) {c : Codec α} (hc : c.LenExact) : (listN k c).LenExact := by
+theorem listN_lenExact (k : Nat) {c : Codec α} {esz : Nat} (hc : c.LenExact) : (listN k c esz).LenExact := by
   intro bs l rest h
   simp only [listN] at h
   split at h
@@ -676,7 +675,7 @@ theorem listN_lenExact (k : Nat) {c : Codec α} (hc : c.LenExact) : (listN k c).
     simp [listN] at this ⊢; omega
   · cases h
 
-theorem refine_lenExact {c : Codec α} (p : α → Bool) (hc : c.LenExact) : (refine c p).LenExact := by
+theorem refine_lenExact {c : Codec α} {nested : α → Nat} (p : α → Bool) (hc : c.LenExact) : (refine c p nested).LenExact := by
   intro bs a rest h
   simp only [refine] at h
   split at h
